@@ -608,7 +608,14 @@ class Exec(CallsMixin):
         return self.loop(node, st, None)
 
     def s_For(self, node, st):
-        it = self.eval(node.iter, st)
+        src = self.opts.get("iter_source", {}).get(ast.unparse(node.iter))
+        if src is not None:
+            # assumed dependency contract: this iterable yields exactly the ghost input sequence `src`
+            it = st.vars.get("__ghost_" + src)
+            if it is None:
+                self.oos(f"iter_source {src} not initialised", node)
+        else:
+            it = self.eval(node.iter, st)
         # concrete unrolling
         items = None
         if isinstance(it, Tup):
